@@ -280,7 +280,7 @@ class C17(Prop):
             j['tix'] = i
         # the blocking trackers need several customers blocked at once (same origin and destination for MatrixBlocking's
         # cell order): extra runs of the blocking-heavy regions with MatrixBlocking (2 of 3) and NaiveBlocking (1 of 3)
-        for region, cnt in (('deadlock', 45), ('block', 30), ('sched_block', 15)):
+        for region, cnt in (('deadlock', 45), ('block', 30), ('sched_block', 15), ('fanout_block', 45)):
             for i in range(cnt * (1 if tier == 'quick' else self.thorough_mult)):
                 js.append({'region': region, 'gseed': seed * 100003 + 50000 + i, 'size': 'quick', 'tix': 6 if i % 3 else 5})
         # NodeClassMatrix is the only tracker that sees class changes: extra runs where classes change (after service,
